@@ -49,6 +49,11 @@ PANIC_NOTES = [
     ("tile_id::coord_to_tile_id", "shift", "1 << z", "dominated by `if z >= 32 { bail }`", {"kind": "fact", "fact": "z < 32"}),
     ("tile_id::coord_to_tile_id", "shift", "1 << <bin>", "t_z < z <= 31, so the i64 shift amount t_z*2 is at most 60", {"kind": "fact", "fact": "z < 32"}),
     ("tile_id::tile_id_to_coord", "shift", "1 << t_z", "t_z iterates the constant range 0..32; 1<<31 squared is 2^62 and fits the 64-bit accumulator", None),
+    # ---- mbtiles coverage
+    ("MBTilesReader::get_bbox_pyramid", "std", "clamp",
+     "clamp(0, max_value): max_value = min(2^z - 1, i32::MAX) >= 0 because the zoom range was validated (ensure!(z0 >= 0 && z1 <= 31)) and z runs over z0..=z1", None),
+    ("MBTilesReader::get_bbox_pyramid", "shift", "1 << ",
+     "1i64 << z with z0 <= z <= z1 and ensure!(z0 >= 0 && z1 <= 31) before the loop: shift amounts are 0..=31", None),
     # ---- tar reader
     ("TarTilesReader::open_path", "std", "Vec::remove", "inside `if path_tmp.first() == Some(&\".\")`: the vector has a first element", None),
     # ---- versatiles tile index
